@@ -56,6 +56,8 @@ type Options struct {
 	Tier           int // 0 quick, 1 thorough
 	DeadlineS      int // wall-clock budget of one exploration (0 = default by tier)
 	NoOverrides    bool // ignore Program.Overrides in this exploration
+	Witnesses      int             // collect up to this many witnesses (models of complete ok-paths)
+	WitnessLeft    *int32          // shared countdown of witness attempts (set by the explorer)
 	RealBodies     map[string]bool // functions whose intrinsic is disabled (their real SSA body runs)
 }
 
@@ -113,7 +115,15 @@ type PathOutcome struct {
 	Note  string
 }
 
+// Witness is a concrete input vector of a completed path on which every obligation held
+// (used to cross-validate the encoder against the natively compiled code).
+type Witness struct {
+	Model     map[string]uint64 `json:"model"`
+	Decisions []Decision        `json:"decisions"`
+}
+
 type PathResult struct {
+	Witness      *Witness
 	Outcome      *PathOutcome
 	Decisions    []Decision
 	End          string // "ok", "panic", or pathEnd kind
